@@ -198,6 +198,11 @@ def data3d(rng, ntracks=None, n=None, fmt=None, nlinks=None, masks=None):
     b = Data3D(i32(rng), n, vol, rot, tr, f32_scalar(rng), rng.choice(list(Flags)), fmt)
     for k in range(ntracks):
         b.add_track(marker_track(rng, n, masks[k] if masks else None))
+    if fmt == Data3dBlockFormat.byTrackWithoutLinks and nlinks is None and rng.random() < 0.3:
+        # a block switched to the link-less format that still carries the link table it had (not stored, not counted)
+        links = np.zeros(rng.choice([1, 2]), dtype=LinkType.btype)
+        links[0] = (0, 1)
+        b.links = links
     if fmt == Data3dBlockFormat.byTrack:
         nlinks = rng.choice([None, 0, 1, 3]) if nlinks is None else nlinks
         if nlinks is not None:
@@ -322,6 +327,7 @@ def large(name, seed):
         for f in range(nf):
             for c in range(nc):
                 d[f, c] = f4(int(r.integers(850, 950)), 2) if r.random() > 0.1 else None
+        d[nf - 1, 1] = f4(8192 + int(r.integers(1, 900)), 2)          # one cell whose byte count does not fit 16 bits
         b.data = d
         b._camMap = np.array([2, 0, 1], dtype="<u2")
         return b
